@@ -103,7 +103,25 @@ def cases(tier, rng):
     rng.shuffle(rest)
     return head + rest
 
+def extending_ctx(how):
+    S = lambda *k: ['S', [[x, ''] for x in k]]
+    return {'macros': [['emph', S('m')], ['o', S('o1', 'm')]], 'envs': [], 'specials': [['~', S()]], 'um': S(), 'ue': None,
+            'provide': ['greet', S('m')], 'how': how}
+
+def _extending_cases(rng):
+    """a \\newcommand-like macro extends the context for the rest of ONE parse; the caller's database and later parses
+    must not see the definition (oracle only: the Lean context type has no such spec)"""
+    docs = ['\\provide \\greet{you}', '\\greet{world} and \\emph{x}', 'a\\provide{b}\\greet{c}~\\greet', '\\emph{\\provide\\greet{x}}\\greet{y}', '\\greet{z}']
+    for how in ('add_none', 'extended', 'named'):
+        ctx = extending_ctx(how)
+        for a in docs:
+            for b in docs:
+                yield mk([ctx], [(0, 0, a), (0, 0, b), (0, 1, a)], rng, via=False)
+        yield mk([ctx, ctx], [(0, 0, docs[0]), (1, 0, docs[1]), (0, 0, docs[1]), (1, 1, docs[2])], rng, via=False)
+
 def _cases(tier, rng):
+    for c in _extending_cases(rng):
+        yield c
     quick = tier == 'quick'
     # 0. the historical defect and its relatives (second parse with a shared cached verbatim parser)
     vv = {'macros': [['vv', ['S', [['v', '']]]]], 'envs': [], 'specials': [], 'um': None, 'ue': None}
@@ -155,6 +173,8 @@ def _cases(tier, rng):
         yield mk(ctxs, calls, rng, fresh=(rng.randint(1, 10**6) if j % (25 if quick else 150) == 0 else 0))
 
 def to_line(c):
+    if any(ctxdesc.has_unmodelled(ctx_of(x)) for x in c['ctxs']):
+        return None
     f = ['HIST', MODE, str(len(c['ctxs']))] + [ctxdesc.enc_ctx(ctx_of(x)) for x in c['ctxs']]
     for i, tol, s in c['calls']:
         f += [str(i), 'T' if tol else 'F', '', wire(s)]
